@@ -664,10 +664,14 @@ operation is canceled outright and false is returned.
 */
 func (r *stack) transfer(dest *stack) (ok bool) {
 
-	// if a capacity was set, make sure
-	// the destination can handle it...
+	// number of slices to be transferred
+	n := r.ulen()
+
+	// if a capacity was set, make sure the
+	// destination has enough free slots
+	// to handle it...
 	if dest.cap() > 0 {
-		if r.ulen() > dest.cap()-r.ulen() {
+		if n > dest.cap()-dest.len() {
 			// capacity is in-force, and
 			// there are too many slices
 			// to xfer.
@@ -676,16 +680,20 @@ func (r *stack) transfer(dest *stack) (ok bool) {
 		}
 	}
 
+	// note the destination length
+	// before we start.
+	start := dest.ulen()
+
 	// xfer slices, without any regard for
 	// nilness. Slice type is not subject
 	// to discrimination.
-	for i := 0; i < r.ulen(); i++ {
+	for i := 0; i < n; i++ {
 		sl, _, _ := r.index(i) // cfg offset handled by index method
 		dest.push(sl)
 	}
 
-	// return result
-	ok = dest.ulen() >= r.ulen()
+	// success means every slice arrived
+	ok = dest.ulen() == start+n
 
 	return
 }
